@@ -70,10 +70,11 @@ Definition utf8_enc (c : N) : list N :=
   else [240 + c / 262144; 128 + (c / 4096) mod 64; 128 + (c / 64) mod 64; 128 + c mod 64].
 
 Definition is_surrogate (c : N) : bool := (55296 <=? c) && (c <=? 57343).
-(* char_from_surrogate_pair(low, high): note the `|` of the original *)
+(* char_from_surrogate_pair(low, high): repaired code (/repo c21c3ff) adds the parts; the pinned tree OR-ed them
+   (known finding F26, fixed) *)
 Definition surrogate_pair (low high : N) : option N :=
   if (56320 <=? low) && (low <=? 57343) && (55296 <=? high) && (high <=? 56319) then
-    let n := N.lor (N.shiftl (high - 55296) 10) (low - 56320 + 65536) in
+    let n := (N.shiftl (high - 55296) 10 + (low - 56320 + 65536))%N in
     if (n <=? 1114111) && negb (is_surrogate n) then Some n else None
   else None.
 
